@@ -33,9 +33,9 @@ func (e *Exec) constVal(k *ssa.Const) Val {
 			f, _ := constant.Float64Val(k.Value)
 			if t.Kind() == types.Float32 {
 				f32, _ := constant.Float32Val(k.Value)
-				return Val{c.Const(32, uint64(math.Float32bits(f32)))}
+				return Val{e.fpFromBits(c.Const(32, uint64(math.Float32bits(f32))))}
 			}
-			return Val{c.Const(64, math.Float64bits(f))}
+			return Val{e.fpFromBits(c.Const(64, math.Float64bits(f)))}
 		case t.Info()&types.IsString != 0:
 			return e.strConst(constant.StringVal(k.Value))
 		}
@@ -48,9 +48,12 @@ func (e *Exec) zeroVal(T types.Type) Val {
 	sl := e.P.lay.slots(T)
 	out := make(Val, len(sl))
 	for i, k := range sl {
-		if k == SBool {
+		switch k {
+		case SBool:
 			out[i] = e.c.False
-		} else {
+		case SF32, SF64:
+			out[i] = e.fpFromBits(e.c.Const(k.width(), 0))
+		default:
 			out[i] = e.c.Const(int(k), 0)
 		}
 	}
